@@ -692,6 +692,12 @@ func parse15Gen(tier string, r *rng, emit func(string)) {
 			}
 		}
 	}
+	// fixed programs whose prefixes are the repaired C15 witnesses and their neighbours: `/*/`, `/**`, `/*/ x`,
+	// `a /*/` (unterminated comments ending in a star or slash), `[()`, `f(()`, `x = ()` (empty parameter list)
+	for _, s := range []string{"/*/ x */", "/** x */", "/**/", "/***/", "a /*/ b */", "/*/ x */ a", "a /*/ b */ c", "[/*/ */ 1]",
+		"[() => 1]", "f(() => 1)", "x = () => 1", "() => 1", "[(() => 1)]", "{1: () => 2}"} {
+		emitCuts(s, 0)
+	}
 	n := 1200
 	if thorough {
 		n = 20000
